@@ -20,6 +20,7 @@ CONSTANTS
   CfgCheckLatency = %(checkLatency)s
   CfgHbOverride = %(hbOverride)s
   CfgResetSeqTime = %(resetSeqTime)s
+  CfgSchedule = %(schedule)s
   MaxIn = %(maxIn)d
   MaxOut = %(maxOut)d
   MaxEp = %(maxEp)d
@@ -30,7 +31,7 @@ CHECK_DEADLOCK FALSE
 '''
 
 DEFAULTS = dict(role='acc', bs=42, chunk=0, persist=True, resetOnLogon=False, resetOnLogout=False,
-                resetOnDisconnect=False, checkLatency=True, hbOverride=False, resetSeqTime=False, maxIn=6, maxOut=3, maxEp=2, maxStash=2)
+                resetOnDisconnect=False, checkLatency=True, hbOverride=False, resetSeqTime=False, schedule=False, maxIn=6, maxOut=3, maxEp=2, maxStash=2)
 
 
 def tla_bool(b):
@@ -41,7 +42,7 @@ def mk_cfg(family, conf, props):
     d = dict(DEFAULTS)
     d.update(conf)
     d['family'] = family
-    for k in ('persist', 'resetOnLogon', 'resetOnLogout', 'resetOnDisconnect', 'checkLatency', 'hbOverride', 'resetSeqTime'):
+    for k in ('persist', 'resetOnLogon', 'resetOnLogout', 'resetOnDisconnect', 'checkLatency', 'hbOverride', 'resetSeqTime', 'schedule'):
         d[k] = tla_bool(d[k])
     d['props'] = ('PROPERTIES ' + ' '.join(props)) if props else ''
     return CFG_TMPL % d
@@ -54,14 +55,14 @@ def engine_cfg(conf):
     return {'role': d['role'], 'bs': d['bs'], 'resetOnLogon': d['resetOnLogon'], 'resetOnLogout': d['resetOnLogout'],
             'resetOnDisconnect': d['resetOnDisconnect'], 'refreshOnLogon': False, 'chunk': d['chunk'],
             'persist': d['persist'], 'checkLatency': d['checkLatency'], 'hbOverride': d['hbOverride'], 'hbCfg': 30,
-            'resetSeqTime': d['resetSeqTime']}
+            'resetSeqTime': d['resetSeqTime'], 'schedule': d['schedule']}
 
 
 def conf_name(conf):
     d = dict(DEFAULTS)
     d.update(conf)
     flags = ''.join(c for c, k in (('L', 'resetOnLogon'), ('O', 'resetOnLogout'), ('D', 'resetOnDisconnect'),
-                                   ('H', 'hbOverride'), ('T', 'resetSeqTime')) if d[k])
+                                   ('H', 'hbOverride'), ('T', 'resetSeqTime'), ('S', 'schedule')) if d[k])
     return '%s-%d-c%d%s%s%s' % (d['role'], d['bs'], d['chunk'], '' if d['persist'] else '-np',
                                 '' if d['checkLatency'] else '-nl', ('-' + flags) if flags else '')
 
